@@ -18,6 +18,7 @@ pub mod c13;
 pub mod c14;
 pub mod c15;
 pub mod c16;
+pub mod c17;
 pub mod c19;
 
 pub fn dispatch(ctx: &mut Ctx) -> bool {
@@ -38,6 +39,7 @@ pub fn dispatch(ctx: &mut Ctx) -> bool {
 		"C14" => c14::run(ctx),
 		"C15" => c15::run(ctx),
 		"C16" => c16::run(ctx),
+		"C17" => c17::run(ctx),
 		"C19" => c19::run(ctx),
 		_ => return false,
 	}
@@ -65,6 +67,7 @@ pub fn confirm(key: &str) -> Option<Option<String>> {
 		"C14" => c14::confirm(key),
 		"C15" => c15::confirm(key),
 		"C16" => c16::confirm(key),
+		"C17" => c17::confirm(key),
 		"C19" => c19::confirm(key),
 		_ => None,
 	}
